@@ -20,6 +20,7 @@ afterwards) are compared.
 
 from __future__ import annotations
 
+import ctypes
 import importlib
 import importlib.util
 import io
@@ -51,7 +52,7 @@ def canon(v: Any, d: int = 0) -> Any:
         return ("deep",)
     t = type(v)
     if t is StepLog:
-        return ("steplog", [list(x) for x in v])
+        return ("steplog", [list(x) for x in v], v.positional)
     if v is None or t is bool or t is int or t is str or t is bytes or t is float or t is complex:
         return (t.__name__, repr(v))
     if t is list or t is tuple:
@@ -60,8 +61,10 @@ def canon(v: Any, d: int = 0) -> Any:
         return ("dict", [(canon(k, d + 1), canon(x, d + 1)) for k, x in list(v.items())])
     if t is set or t is frozenset:
         return (t.__name__, sorted((canon(x, d + 1) for x in v), key=repr))
-    if t is bytearray or t is range or t is slice:
+    if t is bytearray or t is range:
         return (t.__name__, repr(v))
+    if t is slice:
+        return ("slice", [canon(v.start, d + 1), canon(v.stop, d + 1), canon(v.step, d + 1)])
     if isinstance(v, type):
         return ("type", v.__qualname__)
     if isinstance(v, BaseException):
@@ -99,6 +102,11 @@ PROGRAM_MARK = "P:"
 
 
 _BUF = io.StringIO()
+# PyErr_Occurred() through ctypes.pythonapi: if a call returned normally but left an exception set, the
+# ctypes call itself raises it here (instead of it surfacing at some unrelated later operation)
+_err_check = ctypes.pythonapi.PyErr_Occurred
+_err_check.restype = ctypes.c_void_p
+_err_check.argtypes = []
 
 
 def observe(M: Any, setup: list, call: Any, alias: bool, modnames: tuple, target: Any = None) -> tuple:
@@ -121,7 +129,12 @@ def observe(M: Any, setup: list, call: Any, alias: bool, modnames: tuple, target
             if target is not None:
                 ns["F"] = eval(target, ns)
             r = eval(call, ns)
-            out: tuple = ("val", canon(r))
+            try:
+                _err_check()
+                out: tuple = ("val", canon(r))
+            except BaseException as leak:  # noqa: BLE001
+                out = ("leak", type(leak).__qualname__, None)
+                msg = "returned normally but left an exception set"
             del r
         except RecursionError:
             raise
@@ -152,6 +165,8 @@ def observe(M: Any, setup: list, call: Any, alias: bool, modnames: tuple, target
 def compare(ref: tuple, got: tuple) -> str | None:
     """Kind of disagreement between the interpreter's and the compiled module's observation, or None."""
     (ro, rs, rm, _), (go, gs, gm, _) = ref, got
+    if ro[0] == "leak" or go[0] == "leak":
+        return "exception-left-pending"
     if ro[0] != go[0]:
         return "exception-missing" if ro[0] == "exc" else "exception-unexpected"
     if ro[0] == "exc":
@@ -176,20 +191,23 @@ _FN = re.compile(r"^[\w.]+\(\)")
 def cause_key(unit: dict, kind: str, call: str, r: tuple, g: tuple) -> str:
     """Cause-level class of a mismatch (the stable part of the violation signature after the construct)."""
     if kind == "result" and r[0][1][0] == "steplog" and g[0][1][0] == "steplog":
-        return "result|" + step_diff(r[0][1][1], g[0][1][1])
+        return "result|" + step_diff(r[0][1][1], g[0][1][1], r[0][1][2])
     sh = unit.get("shapes")
     if sh is not None:
         for n in sh.get("po_names", ""):
             if f"{n}=" in call or f"'{n}':" in call:
                 return "posonly-parameter-passed-by-keyword"
         if r[0][0] == "exc":
-            return kind + "|interpreter: " + _NUM.sub("N", _QUOTED.sub("X", _FN.sub("f()", r[3] or "")))[:80]
+            m = _NUM.sub("N", _QUOTED.sub("X", _FN.sub("f()", r[3] or ""))).replace("from N to N", "N")
+            return kind + "|interpreter: " + m[:80]
     return kind
 
 
 def show(o: tuple) -> str:
     out, so, st, msg = o
-    if out[0] == "exc":
+    if out[0] == "leak":
+        s = f"returns normally with a pending {out[1]}"
+    elif out[0] == "exc":
         s = f"raises {out[1]}({msg!r})"
     else:
         s = "returns " + _short(out[1])
@@ -204,6 +222,8 @@ def _short(c: Any) -> str:
 
 
 def _flat(c: Any) -> str:
+    if isinstance(c, tuple) and len(c) == 3 and c[0] == "steplog":
+        return "steps[" + "; ".join(" ".join(str(y) for y in x) for x in c[1]) + "]"
     if isinstance(c, tuple) and len(c) == 2 and isinstance(c[0], str) and isinstance(c[1], str):
         return f"{c[0]}:{c[1]}"
     if isinstance(c, tuple) and len(c) == 2 and isinstance(c[0], str) and isinstance(c[1], list):
@@ -225,27 +245,35 @@ class Box:
     def _state(self) -> Any:
         return sorted(self.__dict__.items())
 
+    def __repr__(self) -> str:
+        return f"Box({self.a!r})"
+
 
 class StepLog(list):
     """Log of a scripted interaction (one entry per step); compared step by step."""
 
+    positional = True  # whether "first step" vs "later step" is part of the cause (generator protocol)
 
-def step_diff(ref: list, got: list) -> str:
+
+def step_diff(ref: list, got: list, positional: bool = True) -> str:
     """Cause-level description of the first differing step of two StepLogs."""
     for i, (r, g) in enumerate(zip(ref, got)):
         if r != g:
-            where = "first" if i == 0 else "later"
+            where = ("first" if i == 0 else "later") if positional else "step"
 
             def cls(x: list) -> str:
                 k = x.index("raises") if "raises" in x else -1
                 if k >= 0:
-                    return "raises-" + str(x[k + 1])
+                    return "raises-" + ("thrown-exception" if x[0] == "throw" else str(x[k + 1]))
                 return "stop" if "stop" in x[:3] else "value"
 
             rc, gc = cls(list(r)), cls(list(g))
+            op = r[0]
+            if positional and i > 0 and op in ("next", "send"):
+                op = "resume"  # next() and send(x) into a started generator are the same operation
             if rc == gc:
-                return f"{where}-{r[0]}:{rc}-differs"
-            return f"{where}-{r[0]}:{rc}=>{gc if gc.startswith('raises') else 'no-exception' if rc.startswith('raises') else gc}"
+                return f"{where}-{op}:{rc}-differs"
+            return f"{where}-{op}:{rc}=>{gc if gc.startswith('raises') else 'no-exception' if rc.startswith('raises') else gc}"
     return "length"
 
 
@@ -279,7 +307,8 @@ def drive(gen: Any, script: list) -> list:
 def apply_seq(obj: Any, steps: list) -> list:
     """Apply a sequence of ('get', attr) / ('set', attr, v) / ('del', attr) / ('call', meth, args) / ('has', attr)
     steps to an object from the interpreter and record every outcome."""
-    log: list = StepLog()
+    log = StepLog()
+    log.positional = False
     for step in steps:
         op = step[0]
         try:
@@ -426,7 +455,7 @@ def run_job(job: dict) -> dict:
             if r[0][0] == "exc":
                 nexc += 1
                 kinds.add(r[0][1])
-            else:
+            elif r[0][0] == "val":
                 kinds.add("value:" + str(r[0][1][0]))
             if r[1]:
                 nout += 1
